@@ -30,6 +30,7 @@ PROPS = [
  ("fix: a step request for an ingest session", ["C08", "C16"]),
  ("fix: audio segments addressed by $Time$", ["C02", "C04"]),
  ("fix: publishTime was rounded", ["C05"]),
+ ("fix: MPD startNumber ignored the configured start number", ["C02"]),
  ("fix: MPD patch: adaptation sets other than video/audio", ["C11"]),
  ("fix: EndTime read ResetTime without the limiter mutex", ["C20"]),
  ("fix: receiver: the stream table was read and written by concurrent upload handlers", ["C19"]),
